@@ -1114,7 +1114,9 @@ func (t *Tree) Compile(file string, args []string, out io.Writer) (err error) {
 			printJump(ko)
 			_print("}")
 		case TypePredicate:
-			_print("\n   if !(%v) {", n)
+			/* white space around the expression is layout; a line end in front of
+			   the closing parenthesis would be read as the end of a statement */
+			_print("\n   if !(%v) {", strings.TrimSpace(n.String()))
 			printJump(ko)
 			_print("}")
 		case TypeStateChange:
